@@ -947,7 +947,10 @@ def replay(ctx, path):
     print('impl scanner:', json.dumps(obs))
     pob = parser_obs(cut, ['last'], 60)
     print('impl parser :', json.dumps(pob))
-    lst = Listing(read_text(cut) if False else blob.decode('utf-8', 'ignore').replace('\r\n', '\n').replace('\r', '\n'))
+    fullp = os.path.join(wdir, 'replay.full.res')
+    with open(fullp, 'wb') as fil:
+        fil.write(blob)
+    lst = Listing(read_text(fullp))
     k, j = lst.locate(read_text(cut))
     body = (lst.coq_defs() + 'Definition lines := tagged_lines uniq cids ' + cb(lst.last_nl) + '.\n'
             + f'Eval vm_compute in match close_scan (model_prefix (scanl (OkS init_st) lines) lines '
